@@ -1,6 +1,7 @@
 package main
 
 import (
+	"os/exec"
 	"crypto/sha256"
 	"encoding/json"
 	"flag"
@@ -365,6 +366,29 @@ func cmdCheck(args []string) int {
 			}
 		}
 	}
+	// bounded stand-ins (real code run under a stated bound; never counted as proved)
+	var boundedRes []map[string]string
+	for _, b := range spec.Bounded {
+		cmd := exec.Command(filepath.Join(*vdir, "bounded", "run.sh"), b, *repo)
+		cmd.Env = append(os.Environ(), "VERIF_TIER="+tier)
+		out, err := cmd.CombinedOutput()
+		line := strings.TrimSpace(string(out))
+		res := map[string]string{"name": b, "output": line, "label": "bounded (stand-in, not a proof)"}
+		for _, f := range strings.Fields(line) {
+			if i := strings.Index(f, "="); i > 0 {
+				res[f[:i]] = f[i+1:]
+			}
+		}
+		boundedRes = append(boundedRes, res)
+		if err != nil || res["ok"] != "true" {
+			violations++
+			path := filepath.Join(*replaysDir, prop+"-"+sanitize(b)+".json")
+			data, _ := json.MarshalIndent(map[string]interface{}{"property": prop, "obligation": b, "kind": "bounded stand-in", "output": line,
+				"replay": "cd /verif && VERIF_TIER=" + tier + " bounded/run.sh " + b + " " + *repo}, "", " ")
+			os.WriteFile(path, data, 0o644)
+			fmt.Printf("VIOLATION property=%s replay=%s obligation=%s status=bounded-check-failed %s\n", prop, path, b, res["detail"])
+		}
+	}
 	wall := time.Since(t0).Seconds()
 	discharged := 0
 	for _, r := range reports {
@@ -403,6 +427,7 @@ func cmdCheck(args []string) int {
 				"load_s":                   tLoad,
 				"contract_file":            "/repo/contracts_verif.go",
 				"undecided":                undecided,
+				"bounded":                  boundedRes,
 				"explanation":              spec.Note,
 			},
 			"assumptions": append(append([]string{}, spec.Assumptions...), sortedKeys(assumed)...),
